@@ -127,7 +127,9 @@ CLAIMED = {
  "C01": dict(text="Theorems over any field of characteristic 0 with an abstract exponential (exp(a+b)=exp a exp b, exp 0=1): the symbol each linear stepper builds is the symbol of its DOCUMENTED "
                   "operator (deep embedding of constant-coefficient operators; advection, full-matrix diffusion, both dispersion / hyper-diffusion variants, generic list; D<=3); order 0 multiplies "
                   "mode k by exp(dt*lambda_k) (translated from the source); n steps = one step with n*dt and -dt undoes dt for every state, dt, n; the wave stepper's diagonalisation is the exact "
-                  "oscillator solution incl. the mean mode. Symbol model and wave model are compared with the real code at every stored mode (exact rationals).",
+                  "oscillator solution incl. the mean mode. The per-mode symbols of ALL 25 stepper classes and of the two operator helpers are re-translated from the source on every run "
+                  "(harness/translate/linops.py, fail-closed, closed over the package) and proved equal to the symbol model for all coefficients, flags and dimensions; symbol and wave models are "
+                  "also compared with the real code at every stored mode (exact rationals).",
              note="The symbol calculus rule d/dx e^{ikx} = ik e^{ikx} and 'stored mode k carries e^{i kappa_k x}' (C04) are used, not re-proved here; jnp.exp trusted; analytic oracle on the real code "
                   "for all modes below Nyquist on small grids, superpositions, dt up to 1e3, negative dt.",
              technique="Rocq proof (ring identities on a deep embedding of the documented PDEs, induction for the semigroup) + exact-rational symbol correspondence", design="§4 C01"),
